@@ -16,6 +16,13 @@ CHECKS = {
                      "reference interpreter; failing chains are reduced to the smallest failing sub-chain for the signature",
                 note="trusted: the 300-line reference interpreter vf/ref/sqf_interp.py; documented exclusions listed as assumptions in the evidence",
                 technique="bounded exhaustive enumeration of programs (small-scope) with a reference interpreter as oracle"),
+    "C05": dict(level="model_checking", ref="3/C05",
+                text="instruction-boundary monitor (guarded hook) evaluated in every state of every execution of the C02 program space placed "
+                     "inside pending expressions, block-ending variants, loop accumulation ladders and scheduled pairs under slice lengths "
+                     "1..7: invariants I1-I3 on frame bases / operands below live frames / residue of removed frames, plus the value of the "
+                     "enclosing expression against the reference interpreter",
+                note="states = instruction boundaries visited on the real VM (no model gap); trusted: monitor in harness/vm.cpp, reference interpreter",
+                technique="explicit exploration of all executions of a bounded program space with an invariant monitor at every instruction boundary"),
 }
 
 PENDING_REASON = "check not built yet in this round (planned, see DESIGN.md section 3)"
